@@ -106,6 +106,12 @@ def fam_sym(ctx, ka, kb, variant, gi, k, tvec):
     st, e = call(lambda: a == b)
     st2, e2 = call(lambda: a2 == b2)
     ctx.require(st == st2 and (st == 'raise' or bool(e) == bool(e2)), sig % '==' + ': answer changes under the transformation')
+    # a polygon equals its negation (same point set) in every pose
+    for o, o2, kk in ((a, a2, ka), (b, b2, kb)):
+        if kk == 'ConvexPolygon':
+            st, e = call(lambda: (o == -o, type(o).__hash__(o) == type(o).__hash__(-o)))
+            st2, e2 = call(lambda: (o2 == -o2, type(o2).__hash__(o2) == type(o2).__hash__(-o2)))
+            ctx.require(st == st2 == 'ok' and bool(e[0]) and bool(e2[0]) and bool(e[1]) and bool(e2[1]), 'C13:polygon == -polygon / hash depends on the pose under g#%d' % gi)
     # distance x k
     if {ka, kb} <= {'Point', 'Line', 'Plane'} and not (ka == kb == 'Plane'):
         st, d = call(lambda: G.distance(a, b))
@@ -142,6 +148,24 @@ def fam_sym(ctx, ka, kb, variant, gi, k, tvec):
                 ctx.require(st == st2 and (st == 'raise' or near(v2, k ** pw * v, T7 * (1 + k ** pw))), 'C13:%s.%s does not scale by k^%d under g#%d k=%s' % (kk, name, pw, gi, k))
 
 
+def fam_polyneg(ctx, shape, fr_name, gi, k):
+    """a polygon in an oblique plane and its images: == / hash against the negated (same point set) and the reversed-order
+    polygon must not depend on the pose"""
+    P = B.polygon(shape, fr_name)
+    g = B.signed_perm_map(gi)
+    u = tuple(ctx.param('u%d' % i) for i in range(3))
+    k = F(k)
+    sig = 'C13:polygon equality under g#%d k=%s' % (gi, k)
+    for pose, T in (('original', lambda p: R.vadd(p, u)), ('image', lambda p: R.vadd(R.vscale(k, g(p)), u))):
+        vs = [T(v) for v in P.verts]
+        p1 = ConvexPolygon(tuple(pt(ctx, v) for v in vs))
+        p2 = ConvexPolygon(tuple(pt(ctx, v) for v in reversed(vs)))
+        for name, q in (('reversed vertex order', p2), ('negation', -p1)):
+            st, e = call(lambda: (p1 == q, q == p1, type(p1).__hash__(p1) == type(q).__hash__(q)))
+            ctx.require(st == 'ok' and all(bool(x) for x in e), sig + ': polygon != its %s in the %s pose' % (name, pose))
+    ctx.outcome('ok')
+
+
 def families(tier, seed):
     rng = random.Random(seed)
     fams = []
@@ -162,6 +186,10 @@ def families(tier, seed):
                     v = 0
                 fams.append(Family('%s-%s/v%d/g%d/k%s/t%s' % (ka, kb, v, gi, k, ','.join(map(str, tv))), fam_sym, (ka, kb, v, gi, k, tv),
                                    budget_s=None))
+    polys = [('quad', 'yz45'), ('tri', 'oblique')] if tier == 'quick' else [(s, f) for s in ('tri', 'quad', 'penta') for f in ('yz45', 'oblique', 'pyth3', 'planar')]
+    for sh, fr in polys:
+        for gi in (range(0, 48, 5) if tier == 'quick' else range(48)):
+            fams.append(Family('polyneg/%s@%s/g%d' % (sh, fr, gi), fam_polyneg, (sh, fr, gi, rng.choice(ks)), must_reach=('ok',)))
     return fams
 
 
